@@ -9,6 +9,7 @@ def run(ctx):
     k = ctx.pick(5, 12)
     P = semcheck.gen_programs(ctx.seed * 7919 + 61, ctx.pick(110, 1400), "strat", p_edge=True)
     P += common.family_small(ctx.pick(50, 700), ctx.seed + 6000)
+    P += common.multirec_family(ctx.pick(40, 500), ctx.seed + 6100)
     P += common.cyclic_family(ctx.pick(80, 1000), ctx.seed + 6100, evidence=0.3)
     P += common.repvar_family(ctx.pick(50, 600), ctx.seed + 6150)
     rng = random.Random(ctx.seed + 707)
